@@ -94,7 +94,10 @@ def _close(a, b_, tol):
     if a.size == 0:
         return True
     both_nan = np.isnan(a) & np.isnan(b_)
-    return bool(np.all(both_nan | (np.abs(a - b_) <= tol * np.maximum(1.0, np.abs(b_)))))
+    same_inf = np.isinf(a) & np.isinf(b_) & (np.sign(a) == np.sign(b_))       # the same infinity is the same value
+    with np.errstate(invalid="ignore"):
+        near = np.isfinite(a) & np.isfinite(b_) & (np.abs(a - b_) <= tol * np.maximum(1.0, np.abs(b_)))
+    return bool(np.all(both_nan | same_inf | near))
 
 
 def fresh_equivalent(cname, x, homs, sigma):
